@@ -275,6 +275,33 @@ fn check_case(prop: &str, e: &Entry, i: usize, v: &Val, st: &mut Stats, thorough
                     }
                 }
             }
+            // the alternative legal forms of the same value (unknown-size sequences, re-plain dedup
+            // strings) are self-delimiting too
+            if let Ok((_, used)) = ref_encode_forms(&e.ty, &r.actual, Forms::default()) {
+                if used.seq_points + used.replain_points > 0 {
+                    let (assignments, _) = form_assignments(used.seq_points, used.replain_points, 4);
+                    for f in assignments.into_iter().skip(1) {
+                        let Ok((fb, _)) = ref_encode_forms(&e.ty, &r.actual, f) else { continue };
+                        let s = [0xaau8, 0x01];
+                        let mut input = fb.b.clone();
+                        input.extend_from_slice(&s);
+                        let d = (e.dec_ctx)(&input);
+                        st.transitions += 1;
+                        st.validated += 1;
+                        let ok = matches!(&d.out, Out::Ok(back) if canon(&e.ty, back) == expect) && d.rest.as_deref() == Some(&s[..]);
+                        if !ok {
+                            bad(
+                                st,
+                                "alternative-form-not-self-delimiting",
+                                class(&d.out),
+                                json!({"encoding": hex(&fb.b), "suffix": hex(&s), "unread": d.rest.as_ref().map(|r| hex(r))}),
+                            );
+                            return;
+                        }
+                        st.bump("exact(alternative form)");
+                    }
+                }
+            }
             if !b.is_empty() {
                 st.nontrivial += 1;
             }
